@@ -12,10 +12,12 @@ import (
 	"bytes"
 	"encoding/hex"
 	"errors"
+	"sort"
 	"fmt"
 	"strconv"
 	"strings"
 	"sync"
+	"sync/atomic"
 	"time"
 
 	"github.com/btcsuite/btcd/blockchain"
@@ -120,8 +122,15 @@ func hx(b []byte) string {
 	return hex.EncodeToString(b)
 }
 
+// shape alternates the representation of empty containers (nil vs empty but
+// non-nil): both must behave alike everywhere.
+var shape atomic.Uint64
+
 func unhx(s string) []byte {
 	if s == "-" {
+		if shape.Add(1)%2 == 0 {
+			return nil
+		}
 		return []byte{}
 	}
 	b, err := hex.DecodeString(s)
@@ -168,6 +177,9 @@ func witTok(w wire.TxWitness) string {
 func parseWit(s string) wire.TxWitness {
 	items := splitList(s, ".")
 	if items == nil {
+		if shape.Add(1)%2 == 0 {
+			return wire.TxWitness{}
+		}
 		return nil
 	}
 	w := make(wire.TxWitness, len(items))
@@ -621,6 +633,70 @@ func exec1(op string, a []string) string {
 			cost = "err:other"
 		}
 		return fmt.Sprintf("legacy=%d p2sh=%s cost=%s", legacy, p2sh, cost)
+	case "inval":
+		// the transaction, the view and the spent scripts are created once and
+		// shared by every call, sequentially and from concurrent goroutines;
+		// afterwards they must be byte-for-byte what the caller passed in
+		m := parseTx(a[0])
+		tx := btcutil.NewTx(m)
+		cb := a[1] == "1"
+		us := splitList(a[2], ",")
+		if len(us) != len(m.TxIn) {
+			return "bad-op"
+		}
+		view := blockchain.NewUtxoViewpoint()
+		for i, u := range us {
+			if u == "x" {
+				continue
+			}
+			spent := strings.HasPrefix(u, "s")
+			if spent {
+				u = u[1:]
+			}
+			e := blockchain.NewUtxoEntry(&wire.TxOut{Value: 1000, PkScript: unhx(u)}, 100, false)
+			if spent {
+				e.Spend()
+			}
+			view.Entries()[m.TxIn[i].PreviousOutPoint] = e
+		}
+		before := viewDigest(view) + txsDigest([]*btcutil.Tx{tx})
+		obs := func() string {
+			var b strings.Builder
+			fmt.Fprintf(&b, "legacy=%d", blockchain.CountSigOps(tx))
+			if n, err := blockchain.CountP2SHSigOps(tx, cb, view); err == nil {
+				fmt.Fprintf(&b, " p2sh=%d", n)
+			} else {
+				b.WriteString(" p2sh=err:missing")
+			}
+			for _, fl := range [][2]bool{{false, false}, {false, true}, {true, false}, {true, true}} {
+				if n, err := blockchain.GetSigOpCost(tx, cb, view, fl[0], fl[1]); err == nil {
+					fmt.Fprintf(&b, " c%s%s=%d", b01(fl[0]), b01(fl[1]), n)
+				} else {
+					fmt.Fprintf(&b, " c%s%s=err:missing", b01(fl[0]), b01(fl[1]))
+				}
+			}
+			fmt.Fprintf(&b, " w=%d", blockchain.GetTransactionWeight(tx))
+			return b.String()
+		}
+		first := obs()
+		stable := obs() == first && obs() == first
+		var wg sync.WaitGroup
+		var mu sync.Mutex
+		for gi := 0; gi < 6; gi++ {
+			wg.Add(1)
+			go func() {
+				defer wg.Done()
+				for rep := 0; rep < 3; rep++ {
+					if obs() != first {
+						mu.Lock()
+						stable = false
+						mu.Unlock()
+					}
+				}
+			}()
+		}
+		wg.Wait()
+		return first + " stable=" + b01(stable) + " inputs=" + b01(before == viewDigest(view)+txsDigest([]*btcutil.Tx{tx}))
 	case "cbh":
 		m := &wire.MsgTx{Version: 1, TxIn: []*wire.TxIn{{
 			PreviousOutPoint: wire.OutPoint{Index: 0xffffffff}, SignatureScript: unhx(a[0]), Sequence: 0xffffffff}}}
@@ -654,45 +730,62 @@ func exec1(op string, a []string) string {
 		}
 		return b01(blockchain.IsFinalizedTransaction(btcutil.NewTx(m), int32(atoi(a[1])), time.Unix(atoi(a[2]), 0)))
 	case "seqlock":
-		mempool := a[0] == "1"
-		m := &wire.MsgTx{Version: int32(uint32(atou(a[1])))}
-		cb := a[2] == "1"
 		var times []int64
 		for _, t := range splitList(a[3], ",") {
 			times = append(times, atoi(t))
 		}
 		view := blockchain.NewUtxoViewpoint()
-		ins := splitList(a[4], ",")
-		if cb && len(ins) != 1 {
+		tx, ok := seqCase(view, 0, a[1], a[2], splitList(a[4], ","))
+		if !ok {
 			return "bad-op"
 		}
-		for i, is := range ins {
-			g := strings.Split(is, ":")
-			in := &wire.TxIn{Sequence: uint32(atou(g[0]))}
-			if cb {
-				in.PreviousOutPoint = wire.OutPoint{Index: 0xffffffff}
-			} else {
-				in.PreviousOutPoint.Hash[0] = byte(i + 1)
-				in.PreviousOutPoint.Hash[1] = byte((i + 1) >> 8)
-				in.PreviousOutPoint.Index = uint32(i)
+		sl, err := blockchain.VerifC13CalcSequenceLockExported(times, tx, view, a[0] == "1")
+		return seqOut(sl, err)
+	case "seqmulti":
+		// one chain and one view, created once, queried by several different
+		// transactions: sequentially, then concurrently and repeatedly; the
+		// chain's answers must not depend on earlier calls and the inputs must
+		// come back unchanged
+		var times []int64
+		for _, t := range splitList(a[0], ",") {
+			times = append(times, atoi(t))
+		}
+		chain := blockchain.VerifC13NewChain(times)
+		view := blockchain.NewUtxoViewpoint()
+		cases := strings.Split(a[1], "/")
+		txs := make([]*btcutil.Tx, len(cases))
+		pools := make([]bool, len(cases))
+		for i, c := range cases {
+			f := strings.Split(c, "!")
+			tx, ok := seqCase(view, i+1, f[1], f[2], splitList(f[3], ","))
+			if !ok {
+				return "bad-op"
 			}
-			m.TxIn = append(m.TxIn, in)
-			switch g[1] {
-			case "x":
-			case "m":
-				view.Entries()[in.PreviousOutPoint] = blockchain.NewUtxoEntry(&wire.TxOut{Value: 1}, 0x7fffffff, false)
-			default:
-				view.Entries()[in.PreviousOutPoint] = blockchain.NewUtxoEntry(&wire.TxOut{Value: 1}, int32(atoi(g[1])), false)
+			txs[i], pools[i] = tx, f[0] == "1"
+		}
+		before := viewDigest(view) + txsDigest(txs)
+		outs := make([]string, len(cases))
+		for i := range cases {
+			outs[i] = seqOut(chain.CalcSequenceLock(txs[i], view, pools[i]))
+		}
+		stable := true
+		var wg sync.WaitGroup
+		var mu sync.Mutex
+		for rep := 0; rep < 3; rep++ {
+			for i := range cases {
+				wg.Add(1)
+				go func(i int) {
+					defer wg.Done()
+					if o := seqOut(chain.CalcSequenceLock(txs[i], view, pools[i])); o != outs[i] {
+						mu.Lock()
+						stable = false
+						mu.Unlock()
+					}
+				}(i)
 			}
 		}
-		sl, err := blockchain.VerifC13CalcSequenceLockExported(times, btcutil.NewTx(m), view, mempool)
-		if err != nil {
-			if c, ok := ruleCode(err); ok && c == blockchain.ErrMissingTxOut {
-				return "err:missing"
-			}
-			return "err:other"
-		}
-		return fmt.Sprintf("%d,%d", sl.Seconds, sl.BlockHeight)
+		wg.Wait()
+		return strings.Join(outs, "/") + " stable=" + b01(stable) + " inputs=" + b01(before == viewDigest(view)+txsDigest(txs))
 	case "lt2seq":
 		return strconv.FormatUint(uint64(blockchain.LockTimeToSequence(a[0] == "1", uint32(atou(a[1])))), 10)
 	case "lockactive":
@@ -700,6 +793,71 @@ func exec1(op string, a []string) string {
 		return b01(blockchain.SequenceLockActive(sl, int32(atoi(a[2])), time.Unix(atoi(a[3]), 0)))
 	}
 	return "bad-op"
+}
+
+// seqCase builds the transaction of one sequence-lock case and adds its spent
+// outputs to view; k separates the outpoints of different cases.
+func seqCase(view *blockchain.UtxoViewpoint, k int, ver, cbs string, ins []string) (*btcutil.Tx, bool) {
+	m := &wire.MsgTx{Version: int32(uint32(atou(ver)))}
+	cb := cbs == "1"
+	if cb && len(ins) != 1 {
+		return nil, false
+	}
+	for i, is := range ins {
+		g := strings.Split(is, ":")
+		in := &wire.TxIn{Sequence: uint32(atou(g[0]))}
+		if cb {
+			in.PreviousOutPoint = wire.OutPoint{Index: 0xffffffff}
+		} else {
+			in.PreviousOutPoint.Hash[0] = byte(i + 1)
+			in.PreviousOutPoint.Hash[1] = byte((i + 1) >> 8)
+			in.PreviousOutPoint.Hash[2] = byte(k)
+			in.PreviousOutPoint.Index = uint32(i)
+		}
+		m.TxIn = append(m.TxIn, in)
+		if cb {
+			continue
+		}
+		switch g[1] {
+		case "x":
+		case "m":
+			view.Entries()[in.PreviousOutPoint] = blockchain.NewUtxoEntry(&wire.TxOut{Value: 1}, 0x7fffffff, false)
+		default:
+			view.Entries()[in.PreviousOutPoint] = blockchain.NewUtxoEntry(&wire.TxOut{Value: 1}, int32(atoi(g[1])), false)
+		}
+	}
+	return btcutil.NewTx(m), true
+}
+
+func seqOut(sl *blockchain.SequenceLock, err error) string {
+	if err != nil {
+		if c, ok := ruleCode(err); ok && c == blockchain.ErrMissingTxOut {
+			return "err:missing"
+		}
+		return "err:other"
+	}
+	return fmt.Sprintf("%d,%d", sl.Seconds, sl.BlockHeight)
+}
+
+// viewDigest / txsDigest render the caller-owned inputs so that any write by
+// the callee shows.
+func viewDigest(v *blockchain.UtxoViewpoint) string {
+	var parts []string
+	for op, e := range v.Entries() {
+		parts = append(parts, fmt.Sprintf("%v:%d:%d:%x:%v:%v", op, e.Amount(), e.BlockHeight(), e.PkScript(), e.IsSpent(), e.IsCoinBase()))
+	}
+	sort.Strings(parts)
+	return strings.Join(parts, ";")
+}
+
+func txsDigest(txs []*btcutil.Tx) string {
+	var b strings.Builder
+	for _, t := range txs {
+		var buf bytes.Buffer
+		t.MsgTx().Serialize(&buf)
+		fmt.Fprintf(&b, "%x|", buf.Bytes())
+	}
+	return b.String()
 }
 
 func sanityHeader(root chainhash.Hash, nonce uint32) wire.BlockHeader {
